@@ -168,7 +168,12 @@ class Source:
             if mod and (not mods or mods[-1] != mod):
                 continue
             if impl:
-                if not impls or norm_header(impls[-1]) != norm_header(impl):
+                if not impls:
+                    continue
+                if impl.startswith('re:'):
+                    if not re.search(impl[3:], norm_header(impls[-1])):
+                        continue
+                elif norm_header(impls[-1]) != norm_header(impl):
                     continue
             elif impls:
                 continue
